@@ -450,11 +450,22 @@ impl<'a> Ctx<'a> {
                         if !real.diags.is_empty() {
                             let d = &real.diags[0];
                             let class = real.resolved.as_ref().map(|doc| class_at(doc, d.line, d.col, d.file)).unwrap_or_default();
-                            let tags: Vec<&String> = case.features.iter().filter(|f| f.starts_with("TAG:")).collect();
-                            let tag = if tags.is_empty() { String::new() } else { format!("+{}", tags.iter().map(|t| t.trim_start_matches("TAG:")).collect::<Vec<_>>().join("+")) };
+                            // generic class: the site prefix is dropped (a finding must have ONE signature)
+                            let generic = ["directive-argument-value", "directive-argument-name", "directive", "field-argument-name", "field-argument-type", "field-name", "field-type", "argument-name", "argument-type"]
+                                .iter()
+                                .find(|g| class.ends_with(*g))
+                                .map(|g| g.to_string())
+                                .unwrap_or(class.clone());
+                            let detail = if d.kind == "TypeMismatch" {
+                                // expected type from the message, with names kept: "…expected type 'Float'"
+                                let ty = d.message.split('\'').nth(1).unwrap_or("").replace('[', "list-of-").replace(']', "").replace('!', "-nn");
+                                format!(":expected-{ty}")
+                            } else {
+                                String::new()
+                            };
                             fails.push(Fail {
                                 stream: "O",
-                                signature: format!("complete:{}@{}{}", d.kind, class, tag),
+                                signature: format!("complete:{}@{}{}", d.kind, generic, detail),
                                 what: format!("a schema that is valid under every rule of Spec/ValidTs gets {} diagnostic(s); first: {} at {}:{} (file {}): {}", real.diags.len(), d.kind, d.line, d.col, d.file, d.message),
                             });
                         }
@@ -619,7 +630,7 @@ fn corpus() -> Vec<Case> {
         m("schema { query: Query subscription: Nope }\ntype Query { a: Int }\n", "unknown-types", "root-operation-type"),
         m("directive @r(x: In) on INPUT_FIELD_DEFINITION\ninput In { n: In2 }\ninput In2 { a: Int @r }\ntype Query { a: Int }\n", "directive-recursion", "through-nested-input-field"),
         m("directive @r(x: Int @r) on ARGUMENT_DEFINITION\ntype Query { a: Int }\n", "directive-recursion", "self"),
-        m("input In { k: String! v: Int }\ndirective @ar(i: In) on OBJECT\ntype Query @ar(i: {k: \"a\", zz: 1}) { a: Int }\n", "directive-args", "input-object-unknown-field(optional-field-omitted)@OBJECT"),
+        m("input In { k: String! v: Int }\ndirective @ar(i: In) on OBJECT\ntype Query @ar(i: {k: \"a\", zz: 1}) { a: Int }\n", "directive-args", "input-object-unknown-field(optional-field-omitted)"),
         v("interface I { f: Int }\ntype Query implements I { f(x: Int! = 1): Int }\n"),
         v("directive @d(f: Float, i: ID, l: [Int]) on OBJECT\ntype Query @d(f: 1, i: 2, l: 3) { a: Int }\n"),
         v("interface A { a: A }\ninterface B implements A { a: B }\ntype Query implements B & A { a: Query }\n"),
